@@ -204,3 +204,30 @@ pub fn clone_routes<T: Clone + PartialEq>(src: &T, dsts: &[T], same: &dyn Fn(&T,
     }
     Ok(n)
 }
+
+/// Caller errors as injected faults: one call with an INVALID argument (out-of-range variable or assignment,
+/// operands of different sizes, a list of tables of mixed sizes), expected to panic and not judged here (C17
+/// does that), made right before a valid event.  The valid event is then judged as usual: a library that leaves
+/// thread-local or shared state half-updated when it unwinds shows up there.
+pub fn poison<T: Tbl>(n: usize, blocks: &[u64], salt: u64) {
+    use volute::Lut;
+    let other = if n == 0 { 1 } else { n - 1 };
+    let _ = guard(|| {
+        // not the event's own table (a leftover copy of it could pass for a duplicate), a scrambled one
+        let mask = crate::gen::low_mask(n);
+        let alt: Vec<u64> = blocks.iter().enumerate().map(|(k, w)| (w ^ 0x6996_9669_9669_6996u64.rotate_left(k as u32 * 7)) & if k == 0 { mask } else { !0 }).collect();
+        let t = T::t_from_blocks(n, &alt);
+        let d = Lut::from_blocks(n, &alt);
+        let o = Lut::nth_var(std::cmp::max(other, 1), 0);
+        match salt % 8 {
+            0 => drop(t.t_flip(n + 1 + (salt >> 8) as usize % 70)),
+            1 => drop(t.t_swap(0, n + (salt >> 8) as usize % 3)),
+            2 => drop(t.t_cofactors(n + (salt >> 8) as usize % 3)),
+            3 => drop(t.t_value(1usize << n)),
+            4 => drop(&d & &o),
+            5 => drop(Lut::bdd_complexity(&[d.clone(), o, d])),
+            6 => drop(Lut::from_cofactors(&d, &o, 0)),
+            _ => drop(t.t_top_decomposition(n + 64)),
+        }
+    });
+}
